@@ -24,6 +24,10 @@ Grammar (typed: S scalar, V vector, N nat, B bool, numeric literals adapt to the
 A group (file, lambda) that leaves the grammar is replaced by the committed reference text translate/ref/KernelsGen.ref.v and
 reported as `translator-out-of-grammar` (never a violation by itself).
 
+Consume-everything (translate/strict.py, DESIGN §9.4): the body of every site (QUB loop, the two branches of the line search, the
+backtrack_qub lambda) and of the two switch functions is split into statements and EVERY statement is either translated or one of
+the statements listed in RECOMPUTE / LS_QUB_TAIL / LS_TAIL / HELPERS_PRE / HELPERS_POST, in that order; anything else is out of grammar.
+
 Usage: gen_kernels.py [repo] [outfile] [--write-ref]     (defaults: $VERIF_REPO or /repo, <verif>/coq/gen/KernelsGen.v)
 Prints one JSON status line. Deterministic, python3 stdlib only."""
 import json, os, re, sys, unicodedata
